@@ -4,6 +4,7 @@ import (
 	"fmt"
 	"go/ast"
 	"go/types"
+	"regexp"
 	"sort"
 	"strconv"
 	"strings"
@@ -71,7 +72,7 @@ func (c *Ctx) genBindings(args map[string]geval.Value) map[string]vc.Val {
 }
 
 // oClauses builds a contract from the o-* attributes of a generator function's contract.
-func oClauses(key string, gen *contract.Func, params, results []string, decisions []string) (*contract.Func, error) {
+func (in *Instance) oClauses(key string, gen *contract.Func, params, results []string, decisions []string, args map[string]geval.Value, forCaller bool) (*contract.Func, error) {
 	c := &contract.Func{Key: key, Params: params, Results: results, LoopInv: map[int][]contract.Clause{}, Attrs: map[string][]string{}, File: gen.File, Line: gen.Line}
 	mk := func(text string) (contract.Clause, error) {
 		name := ""
@@ -88,39 +89,28 @@ func oClauses(key string, gen *contract.Func, params, results []string, decision
 		}
 		return contract.Clause{Text: text, Expr: e, File: gen.File, Line: gen.Line, Name: name}, nil
 	}
-	for _, t := range gen.Attrs["o-requires"] {
+	for _, t := range in.pickGuarded(gen.Attrs["o-requires"], args, decisions) {
 		cl, err := mk(t)
 		if err != nil {
 			return nil, err
 		}
 		c.Requires = append(c.Requires, cl)
 	}
-	for _, t := range gen.Attrs["o-ensures"] {
+	ens := in.pickGuarded(gen.Attrs["o-ensures"], args, decisions)
+	if forCaller {
+		// facts about the closure a helper returns: proved at the closure's own
+		// returns (o-closure-ensures), available to callers only
+		ens = append(ens, in.pickGuarded(gen.Attrs["o-caller-ensures"], args, decisions)...)
+	}
+	for _, t := range ens {
 		cl, err := mk(t)
 		if err != nil {
 			return nil, err
 		}
 		c.Ensures = append(c.Ensures, cl)
 	}
-	for _, t := range gen.Attrs["o-loop"] {
-		// "[when <decision>] <k>: invariant P"
-		t = strings.TrimSpace(t)
-		if strings.HasPrefix(t, "when ") {
-			ws := strings.SplitN(t, " ", 3)
-			if len(ws) < 3 {
-				return nil, fmt.Errorf("%s: o-loop of %s: bad when-guard", gen.File, gen.Key)
-			}
-			hit := false
-			for _, d := range decisions {
-				if d == ws[1] {
-					hit = true
-				}
-			}
-			if !hit {
-				continue
-			}
-			t = ws[2]
-		}
+	for _, t := range in.pickGuarded(gen.Attrs["o-loop"], args, decisions) {
+		// "<k>: invariant P"
 		j := strings.Index(t, ":")
 		if j < 0 {
 			return nil, fmt.Errorf("%s: o-loop of %s needs 'k: invariant P'", gen.File, gen.Key)
@@ -298,7 +288,11 @@ func (in *Instance) Verify() (*vc.Engine, error) {
 		if err != nil {
 			return nil, err
 		}
-		ps, rs, err := sigNames(fam.Attr("o-sig"))
+		sigs := in.pickGuarded(fam.Attrs["o-sig"], args, nil)
+		if len(sigs) != 1 {
+			return nil, fmt.Errorf("contract of %s has %d applicable o-sig attributes (want 1)", fam.Key, len(sigs))
+		}
+		ps, rs, err := sigNames(sigs[0])
 		if err != nil {
 			return nil, err
 		}
@@ -323,7 +317,7 @@ func (in *Instance) Verify() (*vc.Engine, error) {
 			}
 			targets = append(targets, key)
 		}
-		c, err := oClauses(key, fam, ps, rs, in.Path.Decisions)
+		c, err := in.oClauses(key, fam, ps, rs, in.Path.Decisions, args, fn.Decl.Body == nil)
 		if err != nil {
 			return nil, err
 		}
@@ -344,7 +338,13 @@ func (in *Instance) Verify() (*vc.Engine, error) {
 		for _, w := range strings.Fields(strings.Split(gc.Attr("o-operands"), "->")[0]) {
 			ps = append(ps, strings.SplitN(w, ":", 2)[0])
 		}
-		c, err := oClauses(key, gc, ps, []string{"r"}, nil)
+		args := map[string]geval.Value{}
+		for i, pn := range gc.Params {
+			if i < len(h.Args) {
+				args[pn] = h.Args[i]
+			}
+		}
+		c, err := in.oClauses(key, gc, ps, []string{"r"}, nil, args, true)
 		if err != nil {
 			return nil, err
 		}
@@ -352,12 +352,6 @@ func (in *Instance) Verify() (*vc.Engine, error) {
 			c.Results = nil
 		}
 		cs.Funcs[key] = c
-		args := map[string]geval.Value{}
-		for i, pn := range gc.Params {
-			if i < len(h.Args) {
-				args[pn] = h.Args[i]
-			}
-		}
 		e.ExtraBound[key] = ctx.genBindings(args)
 	}
 	if in.Wrapper != "" {
@@ -373,7 +367,7 @@ func (in *Instance) Verify() (*vc.Engine, error) {
 		if in.RetType != "" {
 			rs = []string{"r"}
 		}
-		c, err := oClauses(key, in.Con, ps, rs, in.Path.Decisions)
+		c, err := in.oClauses(key, in.Con, ps, rs, in.Path.Decisions, in.GenArgs, false)
 		if err != nil {
 			return nil, err
 		}
@@ -393,11 +387,15 @@ func (in *Instance) Verify() (*vc.Engine, error) {
 	// results, o-closure-ensures are checked at every return inside it
 	vc.FuncLitHook = func(e *vc.Engine, st *vc.State, x *ast.FuncLit) (vc.Val, bool, error) {
 		gen := in.Con
+		closureArgs := map[string]map[string]geval.Value{}
 		if cur := e.CurrentKey(); cur != "" {
 			for n, h := range in.Helpers {
 				if pkgName+"."+n == cur {
-					if fam, _, err := in.B.Family(h.Plugin, len(h.Typs), in.kind0(h.Typs), sameTypes(h.Typs)); err == nil {
+					if fam, bind, err := in.B.Family(h.Plugin, len(h.Typs), in.kind0(h.Typs), sameTypes(h.Typs)); err == nil {
 						gen = fam
+						if a, err := BindRequest(bind, h.Typs); err == nil {
+							closureArgs[fam.Key] = a
+						}
 					}
 				}
 			}
@@ -405,8 +403,12 @@ func (in *Instance) Verify() (*vc.Engine, error) {
 		if len(gen.Attrs["o-closure-ensures"]) == 0 {
 			return vc.Val{}, false, nil
 		}
+		cargs := in.GenArgs
+		if gen != in.Con {
+			cargs = closureArgs[gen.Key]
+		}
 		var cls []contract.Clause
-		for _, t := range gen.Attrs["o-closure-ensures"] {
+		for _, t := range in.pickGuarded(gen.Attrs["o-closure-ensures"], cargs, in.Path.Decisions) {
 			name := ""
 			t = strings.TrimSpace(t)
 			if strings.HasPrefix(t, "[") {
@@ -421,6 +423,18 @@ func (in *Instance) Verify() (*vc.Engine, error) {
 			cls = append(cls, contract.Clause{Text: t, Expr: x, File: gen.File, Line: gen.Line, Name: name})
 		}
 		results := strings.Fields(gen.Attr("o-closure"))
+		// a closure that returns another closure is plumbing: the clauses are
+		// checked where the innermost literal returns
+		nested := false
+		ast.Inspect(x.Body, func(n ast.Node) bool {
+			if _, ok := n.(*ast.FuncLit); ok {
+				nested = true
+			}
+			return !nested
+		})
+		if nested {
+			cls = nil
+		}
 		if err := e.VerifyFuncLit(st, x, results, cls); err != nil {
 			return vc.Val{}, true, err
 		}
@@ -501,6 +515,45 @@ func (in *Instance) Verify() (*vc.Engine, error) {
 		}
 		return vc.Val{T: smt.App(vc.SortOf(rt), fname, ts...), Ty: rt}, true, nil
 	}
+	// <arg>_p<i>: the user's name of parameter i of a signature-typed generator argument
+	for an, av := range in.GenArgs {
+		var sigs []*geval.SymType
+		switch x := av.(type) {
+		case *geval.SymType:
+			sigs = []*geval.SymType{x}
+		case *geval.SliceVal:
+			for _, el := range x.Elems {
+				if t, ok := el.(*geval.SymType); ok {
+					sigs = append(sigs, t)
+				}
+			}
+		}
+		for si, t := range sigs {
+			f := in.fact(t)
+			if f == nil || f.Kind != geval.KSignature || f.Params == nil {
+				continue
+			}
+			base := an
+			if _, isSlice := av.(*geval.SliceVal); isSlice {
+				base = fmt.Sprintf("%s%d", an, si)
+			}
+			for i, v := range f.Params.Vars {
+				if n := in.renderTmpl(v.NameT, nil); n != "" {
+					cs.Ghost[pkgName+"."+fmt.Sprintf("%s_p%d", base, i)] = &spec.Ident{Name: n}
+				}
+			}
+			// parameters of the function a curried signature returns
+			if f.Results != nil && len(f.Results.Vars) == 1 {
+				if rf := in.fact(f.Results.Vars[0].Type); rf != nil && rf.Kind == geval.KSignature && rf.Params != nil {
+					for i, v := range rf.Params.Vars {
+						if n := in.renderTmpl(v.NameT, nil); n != "" {
+							cs.Ghost[pkgName+"."+fmt.Sprintf("%s_q%d", base, i)] = &spec.Ident{Name: n}
+						}
+					}
+				}
+			}
+		}
+	}
 	if len(targets) == 0 {
 		return nil, fmt.Errorf("the path emits no function that a contract describes")
 	}
@@ -558,4 +611,41 @@ func sameSig(a, b *types.Signature) bool {
 		}
 	}
 	return true
+}
+
+var userNameRe = regexp.MustCompile("^" + Mark + `[pr]\d+_\d+$`)
+
+// CheckCapture: a literal identifier of the emitted text (f, err, v, ...) that
+// refers to a local declaration must not be captured by a binder whose name the
+// user chooses (parameter names copied from the user's function type). Every
+// user-named binder declared in a scope between the declaration and the use is
+// a possible capture: the emitted text is correct only if the user's name
+// differs from the literal.
+func (in *Instance) CheckCapture() []string {
+	var out []string
+	seen := map[string]bool{}
+	for id, obj := range in.Info.Uses {
+		if strings.HasPrefix(id.Name, Mark) {
+			continue
+		}
+		v, ok := obj.(*types.Var)
+		if !ok || v.Parent() == nil || v.Parent() == in.Pkg.Scope() || v.Parent() == types.Universe {
+			continue
+		}
+		sc := in.Pkg.Scope().Innermost(id.Pos())
+		for sc != nil && sc != v.Parent() {
+			for _, n := range sc.Names() {
+				if userNameRe.MatchString(n) {
+					msg := fmt.Sprintf("the identifier %q is used under a binder whose name the user chooses (%s): a parameter called %q captures it", id.Name, n, id.Name)
+					if !seen[msg] {
+						seen[msg] = true
+						out = append(out, msg)
+					}
+				}
+			}
+			sc = sc.Parent()
+		}
+	}
+	sort.Strings(out)
+	return out
 }
